@@ -585,7 +585,7 @@ def tasks(tier):
             out.append((src, act, once, evs, ints, dict(info, emitted_events_fed_back=True), d[0], False, True))
     # label-started instances of activated flows, `deactivate`, flows reacting to returning Start / Stop events
     from vf.props import c06_more
-    for gen, depth, fb in ((c06_more.t10_programs, d[2], False), (c06_more.t11_programs, d[2], False), (c06_more.t12_programs, d[0] - 1, True), (c06_more.t13_programs, d[0], False), (c06_more.t14_programs, d[0], False)):
+    for gen, depth, fb in ((c06_more.t10_programs, d[2], False), (c06_more.t11_programs, d[2], False), (c06_more.t12_programs, d[0] - 1, True), (c06_more.t13_programs, d[0], False), (c06_more.t14_programs, d[0], False), (c06_more.t15_programs, d[2], False)):
         for src, act, once, evs, ints, info, opts in gen(tier):
             out.append((src, act, once, evs, ints, dict(info, emitted_events_fed_back=True) if fb else info, depth, False, fb, opts))
     if tier == "thorough":
@@ -617,6 +617,7 @@ def run(rep, tier):
         "`deactivate` (marker event sent right after it) no longer counts as an activator",
         "T12 (emitted events fed back as process_events does): action held in a when / await-group scope that is closed in the step that starts "
         "the action x a parent / sibling reacting to the returning Start or Stop event by ending the holder",
+        "T15: the restarted instance of an activated flow is stopped / finished through its instance uid by another flow",
         "T14: three heads of one conflict group with equal scores, two of them on the identical action, one of that pair a descendant of the third (every tie-break outcome)",
         "T13: the main flow itself ends (finish / abort) while flows and actions it started - earlier or by its last statement - are running",
     ]
